@@ -10,6 +10,7 @@ package main
 
 import (
 	"bytes"
+	"runtime"
 	"context"
 	"fmt"
 	"os"
@@ -303,7 +304,77 @@ type solveResult struct {
 
 // procSem bounds the number of solver processes running at once, so that each has a core to
 // itself and wall-clock time limits mean what they say (the sandbox has 16 cores).
-var procSem = make(chan struct{}, 14)
+var procSem = make(chan struct{}, solverProcs())
+
+func solverProcs() int {
+	n := runtime.NumCPU() - 2
+	if n > 14 {
+		n = 14
+	}
+	if n < 2 {
+		n = 2
+	}
+	return n
+}
+
+// rescueSolvers: further configurations tried, one obligation at a time, before an obligation is
+// given up as undecided (different random seeds and instantiation strategies change which
+// quantifier instances are found first).
+var rescueSolvers = []solverSpec{
+	{"z3-new", func(t int, f string) []string { return []string{"z3-new", fmt.Sprintf("-T:%d", t), f} }},
+	{"z3-new/seed7", func(t int, f string) []string {
+		return []string{"z3-new", fmt.Sprintf("-T:%d", t), "smt.random_seed=7", "sat.random_seed=7", f}
+	}},
+	{"z3-new/seed23", func(t int, f string) []string {
+		return []string{"z3-new", fmt.Sprintf("-T:%d", t), "smt.random_seed=23", "sat.random_seed=23", f}
+	}},
+	{"cvc5", func(t int, f string) []string {
+		return []string{"cvc5", "--produce-models", fmt.Sprintf("--tlimit=%d", t*1000), f}
+	}},
+	{"cvc5/enum", func(t int, f string) []string {
+		return []string{"cvc5", "--produce-models", "--enum-inst", fmt.Sprintf("--tlimit=%d", t*1000), f}
+	}},
+	{"z3", func(t int, f string) []string { return []string{"z3", fmt.Sprintf("-T:%d", t), f} }},
+	{"z3/seed7", func(t int, f string) []string {
+		return []string{"z3", fmt.Sprintf("-T:%d", t), "smt.random_seed=7", f}
+	}},
+}
+
+// rescue runs every variant of an undecided obligation on every rescue configuration, with nothing
+// else running, and a tripled time limit.
+func rescue(j *solveJob, timeoutS int) {
+	o := j.o
+	start := time.Now()
+	ctx, cancel := context.WithCancel(context.Background())
+	defer cancel()
+	type res struct {
+		r    solveResult
+		vi   int
+		full bool
+	}
+	ch := make(chan res, 64)
+	n := 0
+	for i := range j.vars {
+		if i == 0 && len(j.vars) > 1 && !j.vars[0].full {
+			continue // the quantifier-free abstraction was decisive or it is useless
+		}
+		for _, sv := range rescueSolvers {
+			n++
+			go func(i int, sv solverSpec, full bool) {
+				ch <- res{runSolver(ctx, sv, timeoutS, j.files[i]), i, full}
+			}(i, sv, j.vars[i].full)
+		}
+	}
+	for k := 0; k < n; k++ {
+		x := <-ch
+		if x.r.Status == "unsat" || (x.r.Status == "sat" && x.full) {
+			o.Status, o.Solver, o.Model = x.r.Status, x.r.Solver+"/"+j.vars[x.vi].name+"/rescue", x.r.Output
+			o.SMTFile = j.files[x.vi]
+			break
+		}
+	}
+	o.Time += time.Since(start).Seconds()
+}
 
 func runSolver(ctx context.Context, s solverSpec, timeoutS int, file string) solveResult {
 	select {
@@ -425,6 +496,15 @@ func dischargeAll(obls []*Obligation, outDir string, timeoutS int, par int) {
 		}(j)
 	}
 	wg.Wait()
+	// last resort, one obligation at a time on an otherwise idle machine: more solver
+	// configurations and three times the time limit. An obligation is reported as undecided
+	// only after this.
+	for _, j := range jobs {
+		if j.o.Status != "unknown" || noRetry || j.o.Kind == "vacuity" {
+			continue
+		}
+		rescue(j, 3*timeoutS)
+	}
 }
 
 func runJob(j *solveJob, timeoutS int) {
